@@ -157,9 +157,11 @@ CHECKS = {
              "cli_gap_counterexample, cli_gap_wrong_op_counterexample, cli_out_of_order_counterexample (internal offsets printed), "
              "cli_coroutine_counterexample, cli_target_null_counterexample, cli_posmark_int_counterexample — each also states what the repaired code gives; "
              "the same programs run through the real commands on every run and a regression is reported as a violation with the failing source. "
+             "check_settings lets a document through only if the settings block is complete (cli_settings_complete). "
              "The behavioural end-to-end claim (decompiled text behaves like the source) and the exit-status claim are NOT theorems: they are checked per "
              "run on real subprocesses (translation validation with the proven checker; 70 programs quick / 2000 thorough through both commands, plus "
-             "generated documented documents through the decompile command).",
+             "generated documented documents through the decompile command, and a stream of ~45 settings files — every documented member missing at "
+             "every level, wrong types, additional members — through both commands).",
         note=COMMON_NOTE + "The decompiler behind read_routines is not modelled; where its text is wrong the check verifies that the command's text is "
              "identical to the decompiler's own answer through the Python API on the same routine set and records the case as the decompiler's defect "
              "(C02/C06); an SsbScript fall-back text is only compared with the API's text. Outside the model: JSON true/false (Python bool is an int), duplicate keys, documents that rely on duck typing (non-string "
